@@ -164,7 +164,11 @@ pub(crate) fn on_remove_worker(
         .on_worker_lost(worker_id, &running_tasks, reason);
 
     for task_id in running_tasks {
-        let task = core.get_task_mut(task_id);
+        let Some(task) = core.find_task_mut(task_id) else {
+            // Failing one of the previous tasks may have removed this one
+            // (e.g. the job reached its limit of failed tasks)
+            continue;
+        };
         if CrashLimit::NeverRestart == task.configuration.crash_limit {
             log::debug!("Task {task_id} with never restart flag crashed");
             let error_info = TaskFailInfo {
